@@ -4,6 +4,8 @@ package main
 
 import (
 	"fmt"
+	_ "github.com/prometheus/prometheus/discovery/file"       // service discovery kinds used by the catalogue configuration
+	_ "github.com/prometheus/prometheus/discovery/kubernetes" // (discovery/install does not link with this toolchain)
 	"os"
 )
 
